@@ -276,6 +276,12 @@ func buildWorld(t *sim.Tape) *world {
 	if w.g.Root.K == model.Map {
 		gen.FieldHints = w.g.Root.Keys
 	}
+	gen.StopLinks = nil
+	for _, l := range w.g.Links {
+		if l != "" {
+			gen.StopLinks = append(gen.StopLinks, gen.LinkFromBin(l))
+		}
+	}
 	for i, n := 0, 1+t.Choice(3, "sels.n"); i < n; i++ {
 		if cs, err := gen.Selector(t, ssb, 0, false, false).Selector(); err == nil {
 			w.sels = append(w.sels, cs)
